@@ -140,10 +140,20 @@ def merge_states(states):
     if len(states) == 1:
         return states[0]
     k = common_prefix([s.pc for s in states])
-    guards = [simp(conj(s.pc[k:])) for s in states]
+    raw = [simp(conj(s.pc[k:])) for s in states]
     out = states[0].copy()
-    out.pc = states[0].pc[:k] + [simp(disj(guards))]
+    out.pc = states[0].pc[:k] + [simp(disj(raw))]
     out.pc = [t for t in out.pc if not is_true(t)]
+    # name the branch guards (keeps merged ITE terms small: the guard formula occurs once, in its definition)
+    guards = []
+    for g in raw:
+        if z3.is_const(g) or (z3.is_not(g) and z3.is_const(g.arg(0))) or is_true(g) or is_false(g):
+            guards.append(g)
+        else:
+            b = z3.Bool(fresh_name("br"))
+            out.pc.append(b == g)
+            guards.append(b)
+    out._naming = True
     # frames: same depth & same functions by construction
     for fi, fr in enumerate(out.frames):
         _merge_frame(fr, [s.frames[fi] for s in states], guards, set())
@@ -168,7 +178,39 @@ def merge_states(states):
             if not a.eq(t):
                 t = z3.If(g, a, t)
         out.sheap[key] = t
+    _name_merged(out)
     return out
+
+
+def _name_value(out, v, hint):
+    """replace a merged ITE term by a fresh constant defined in the path condition"""
+    if isinstance(v, (VInt, VBool, VReal, VBytes, VStr)) and z3.is_app(v.t) and v.t.decl().kind() == z3.Z3_OP_ITE:
+        c = z3.Const(fresh_name("m_" + hint), v.t.sort())
+        out.pc.append(c == v.t)
+        return type(v)(c)
+    if isinstance(v, VPtr) and z3.is_app(v.off) and v.off.decl().kind() == z3.Z3_OP_ITE:
+        c = z3.Int(fresh_name("m_" + hint))
+        out.pc.append(c == v.off)
+        return VPtr(v.base, c)
+    return v
+
+
+def _name_merged(out):
+    seen = set()
+    for fr in out.frames:
+        f = fr
+        while f is not None and id(f) not in seen:
+            seen.add(id(f))
+            for n, v in list(f.locals.items()):
+                nv = _name_value(out, v, n)
+                if nv is not v:
+                    f.locals[n] = nv
+            f = f.closure
+    for oid, o in out.heap.items():
+        for n, v in list(o.fields.items()):
+            nv = _name_value(out, v, n)
+            if nv is not v:
+                o.fields[n] = nv
 
 
 def _merge_frame(fr, frames, guards, seen):
